@@ -173,6 +173,10 @@ def analyze(cond: Cond, mode: str = 'main', timeout: Optional[float] = None,
 
     pre = []
     excluded = [p for k, p in (cond.known_regions or {}).items() if k in known_ids()]
+    # inputs already decided concretely (a model value of an earlier run that did not
+    # reproduce on the real code) are taken out of the symbolic search
+    for pt in json.loads(os.environ.get('VF_EXCLUDE_POINTS', '[]')):
+        excluded.append(lambda _pt=pt, **kw: all(kw[k] == v for k, v in _pt.items()))
     if excluded and mode == 'main':
         base_pre = cond.pre
 
